@@ -187,13 +187,25 @@ def job_matching(chk, has_s, has_e, partial, shape):
                            lambda msg=msg: ("refuted", "syntactic", 0.0, {"S": 2, "E": 8, "rs": 2, "re": 5}, msg),
                            function=fn, key=f"C17/{fn}/grammar", replayer=_replay_subset_none)
             return
-    spec = z3.And(*atoms, spec_window(rs, re_, S, E, has_s, has_e, partial)) if atoms else \
+    # the non-coordinate conditions, read from the *arguments* (not from the SQL produced): a string without '%' is
+    # an exact match, with '%' a LIKE pattern, a list/tuple a membership test; None contributes nothing
+    want_atoms, want_vals = [], []
+    for col, v in OTHER_SHAPES[shape].items():
+        if v is None:
+            continue
+        if isinstance(v, (list, tuple)):
+            want_atoms.append(z3.Bool(f"row.{col} IN #{len(v)}"))
+            want_vals.extend(v)
+        else:
+            want_atoms.append(z3.Bool(f"row.{col} {'LIKE' if isinstance(v, str) and '%' in v else '='} ?"))
+            want_vals.append(v)
+    spec = z3.And(*want_atoms, spec_window(rs, re_, S, E, has_s, has_e, partial)) if want_atoms else \
         spec_window(rs, re_, S, E, has_s, has_e, partial)
     chk.obligation(f"{base}/cover", "cover", cover_thunk(hyps + [formula]), function=fn) if (has_s or has_e) else None
     chk.obligation(f"{base}/post.where==window", "post", smt_thunk(hyps, formula == spec, timeout=20), function=fn,
                    replayer=_replay(has_s, has_e, partial, shape), key=f"C17/{fn}/post.window")
     nvals = len(vals) if isinstance(vals, (tuple, list)) else -1
-    ok = nph == nvals == n_expected and not any(is_sym(v) for v in (vals or ()))
+    ok = nph == nvals == n_expected and not any(is_sym(v) for v in (vals or ())) and list(vals or ()) == want_vals
     chk.obligation(f"{base}/post.placeholders", "post",
                    (lambda ok=ok, nph=nph, nvals=nvals: ("proved" if ok else "refuted", "syntactic", 0.0, None,
                                                           f"{nph} placeholders, {nvals} values, {n_expected} expected")),
@@ -214,6 +226,14 @@ def _replay(has_s, has_e, partial, shape):
             kw["start"] = S
         if has_e:
             kw["stop"] = E
+        # exact matching of string conditions: siblings that only a LIKE would confuse with the queried names
+        db2 = BasicAnnotationDb()
+        for sid in ("s_1", "s11", "S_1"):
+            db2.add_feature(seqid=sid, biotype="gene", name="g_1", spans=[(rs, re_)], strand="+")
+        hits = sorted(r["seqid"] for r in db2.get_features_matching(seqid="s_1"))
+        if hits != ["s_1"]:
+            return {"failed": True, "witness": dict(seqids=["s_1", "s11", "S_1"], query="s_1"),
+                    "description": f"records on seqids s_1, s11, S_1: get_features_matching(seqid='s_1') returns {hits}"}
         got = len(list(db.get_features_matching(seqid="s1", allow_partial=partial, **kw)))
         want = 1 if (lambda: (
             ((S <= rs and re_ <= E) or (partial and rs < E and re_ > S)) if has_s and has_e else
